@@ -277,3 +277,10 @@ Proof.
         -- intros U. apply (KD r HK). apply IND, (used_sub dl alla r U).
         -- intros G. unfold D in G. apply filter_In in G. apply (KD r HK). apply IND, G.
 Qed.
+
+(* with one VRF in which the target has a route the VRF-aware commands are the ones of the theorem *)
+Lemma diff_croutes_vrf_one m : (forall r, In r (drops m) -> vrf_managed m r = true) -> diff_croutes_vrf m = diff_croutes m.
+Proof.
+  intros H. unfold diff_croutes_vrf, diff_croutes. f_equal. f_equal.
+  induction (drops m) as [|d l IH]; [reflexivity|]. cbn [filter]. rewrite (H d (or_introl eq_refl)). f_equal. apply IH. intros r Hr. apply H. right. exact Hr.
+Qed.
